@@ -173,7 +173,11 @@ where
         // SVD of L2'*L1,
         let tmp = &mut f.workmat1;
         tmp.mul(&L2.t(), L1, T::one(), T::zero());
-        f.SVD.factor(tmp).expect("SVD error");
+        // bail if the SVD fails (e.g. on non-finite factors after a
+        // numerical breakdown), like for the Cholesky factors above
+        if f.SVD.factor(tmp).is_err() {
+            return false;
+        }
 
         // assemble λ (diagonal), R and Rinv.
         f.λ.copy_from(&f.SVD.s);
@@ -450,7 +454,12 @@ where
         } else {
             svec_to_mat(workΔ, d);
             workΔ.lrscale(Λisqrt, Λisqrt);
-            engine.eigvals(workΔ).expect("Eigval error");
+            if engine.eigvals(workΔ).is_err() {
+                // the eigenvalue solver fails on a non-finite direction (after a
+                // numerical breakdown).  Report a zero step, so that the solver
+                // stops with an error status rather than panicking.
+                return T::zero();
+            }
             engine.λ.minimum()
         }
     };
